@@ -107,6 +107,7 @@ def run_deductive(prop, tier, ev, known):
     downgraded = []
     kf_obligations = 0
     seen_sig = set()
+    xcheck_fail = {}
     for c in contracts:
         rep, obs = pc.generate(c)
         entry = {'contract': c.name, 'target': c.target, 'ast_sha256': rep.ast_hash, 'dropped_constructs': rep.dropped,
@@ -159,6 +160,21 @@ def run_deductive(prop, tier, ev, known):
                 failed_here.append((I, ob, dec, st, reason))
         entry['obligations'] = len(order)
         entry['discharged'] = n_ok
+        if c.sampler is not None:
+            # engine-vs-CPython differential: the clause text that was just proved, evaluated on real runs of the real function
+            try:
+                from pyvc import runtime
+                done, skipped, fails = runtime.crosscheck(c, 60 if tier == 'quick' else 1500, ev.get('seed', 0))
+                entry['cpython_crosscheck'] = {'evaluated': done, 'precondition_false': skipped, 'failures': fails}
+                if done == 0:
+                    ev['errors'].append(f'{c.name}: CPython cross-check evaluated nothing (sampler never meets the precondition)')
+                if fails and not failed_here:
+                    print(f'CHECK-ERROR {c.name}: all obligations discharged but the real function violates the clause on a real input: '
+                          f'{fails[0]} (verifier unsound or contract not evaluable)')
+                    ev['errors'].append(f'{c.name}: CPython cross-check disagrees with the proof: {fails[0]}')
+                xcheck_fail[c.name] = fails
+            except Exception as e:
+                ev['errors'].append(f'{c.name}: CPython cross-check crashed: {e!r}')
         funcs.append(entry)
         # group failures by obligation name (several paths may fail the same named obligation)
         by_name = {}
@@ -181,6 +197,8 @@ def run_deductive(prop, tier, ev, known):
                                     confirmed = {'input': rr['input'], 'observed': detail}
                     except Exception as e:   # replay harness problem: stay with no-failing-input-found
                         solver_out.append({'replay_error': repr(e)})
+            if confirmed is None and xcheck_fail.get(c.name):
+                confirmed = xcheck_fail[c.name][0]
             if confirmed is None and c.hunt is not None:
                 try:
                     confirmed = c.hunt()
